@@ -88,6 +88,11 @@ def run(ctx):
     cases = [dict(id="mc%d" % i, src=e["src"], extra=EXTRA) for i, e in enumerate(exported)]
     cases += random_inputs(ctx, 1500 if quick else 20000, 12 if quick else 30)
     cases += fixture_inputs(ctx, 300 if quick else 5000)
+    if not quick:
+        # coverage-guided exploration of the real lexer: the corpus the fuzzing engine keeps is judged like every other input
+        seeds = FRAGS + STARTERS + [bytes(c["src"]) for c in cases[-200:]]
+        for i, b in enumerate(ctx.fuzz("FuzzLex", int(os.environ.get("VERIF_FUZZ_SECONDS", "90")), seeds)):
+            cases.append(dict(id="fz%d" % i, src=list(b), extra=EXTRA))
     ctx.cov["samples"] = [dict(src=bytes(c["src"]).decode("latin-1")) for c in (cases[777 % len(cases)], cases[len(exported)], cases[-1])]
     fails = validate(ctx, cases)
     ctx.cov["distinct_nontrivial"] = len({bytes(c["src"]) for c in cases if len(c["src"]) >= 2})
@@ -108,7 +113,7 @@ def run(ctx):
     ctx.assumptions += ["line break = LF for line counting and the after-newline flag (lone CR is whitespace); reading in DESIGN 5 C10",
                         "a // comment is taken to run to the next LF or to the next token start (a NUL byte ends a comment in this lexer)"]
     ctx.finish(LEVEL, "byte strings: every string <= MaxLen[alphabet] over 5 class-representative alphabets (TLC export) + "
-               "seeded random lexeme-fragment sequences + repository fixtures whole/cut/mutated; non-trivial = distinct inputs of >= 2 bytes",
+               "seeded random lexeme-fragment sequences + repository fixtures whole/cut/mutated (+ thorough: the corpus of a coverage-guided fuzzing run on the real lexer); non-trivial = distinct inputs of >= 2 bytes",
                exhaustive=True, extra=dict(mc_cfg=cfg))
 
 
